@@ -25,7 +25,7 @@ from . import common
 
 PROP = "C01"
 EXE = "drv_c01"
-GEN_MODULES = ["Curves", "C01Glv"]
+GEN_MODULES = ["Curves", "C01Glv", "C01Ctor"]
 RULE = ("op lines come from exhaustive enumeration of toy curves (every (p,a,b) with non-zero discriminant, every "
         "prime-order subgroup, every pair of Jacobian representatives from a scaling orbit) and from one seeded PRNG "
         "for the catalogued curves (boundary scalar classes); non-trivial = the implementation did not refuse; "
